@@ -77,11 +77,18 @@ def _k1(ctx: Context) -> None:
         ok = isinstance(v, StructMethod) and v.method == meth and v.struct.fmt == "<H"
         ck.check("C05.K1", ok, f"{name} = Struct('<H').{meth}", f"{M}:{name}", f"{name} is {v}: the length prefix must be an unsigned little-endian 16-bit value", loc)
     pn = P.const_of(f"{CH}.PACK_NONCE")
-    ok = isinstance(pn, PartialConst) and isinstance(pn.func, StructMethod) and pn.func.method == "pack" and pn.args == (0,)
+    # any spelling of the packer is fine (partial(Struct("<LQ").pack, 0), Struct("<4xQ").pack ...): what counts is the layout
+    # of the 12 bytes, obtained by folding the constant packer on a probe counter
+    fmt, pre = None, ()
+    if isinstance(pn, PartialConst) and isinstance(pn.func, StructMethod) and pn.func.method == "pack" and all(isinstance(a, int) for a in pn.args):
+        fmt, pre = pn.func.struct.fmt, tuple(pn.args)
+    elif isinstance(pn, StructMethod) and pn.method == "pack":
+        fmt = pn.struct.fmt
+    ok = fmt is not None
     nonce_ok = False
     if ok:
         try:
-            probe = _struct.pack(pn.func.struct.fmt, 0, 0x0102030405060708)
+            probe = _struct.pack(fmt, *pre, 0x0102030405060708)
             nonce_ok = probe == b"\x00\x00\x00\x00" + (0x0102030405060708).to_bytes(8, "little")
         except _struct.error:
             nonce_ok = False
@@ -292,6 +299,12 @@ def _t2(ctx: Context) -> None:
     for n in gt:
         t = strip_sites(T.of(cfg, n, n.exprs[0]))
         okg = t == ("cmp", ("GtE",), (lenbuf, ("const", FRAME_LENGTH_BYTES))) or t == ("cmp", ("Gt",), (lenbuf, ("const", FRAME_LENGTH_BYTES - 1)))
+    gts = [strip_sites(T.of(cfg, n, n.exprs[0])) for n in gt]
+    if not any(t[0] == "cmp" and lenbuf in t[2] for t in gts):
+        # the loop is not driven by a test on the buffer length (frames taken by a helper, an index cursor ...): this
+        # rule's byte accounting is written for the `while len(buffer) >= 2` form and does not decide other forms
+        ck.unknown("C05.T2", f"data_received: the frame loop is not guarded by a test on len(buffer) (guard: {[show(t, 60) for t in gts]}): form not decided", ctx.loc(f, loops[0]))
+        return
     ck.check("C05.T2", okg and len(gt) == 1, "loop guard: len(buffer) >= 2 (a complete length prefix)", f"{ctx.fkey(f)}:loop-guard",
              f"data_received: the frame loop guard is {[show(strip_sites(T.of(cfg, n, n.exprs[0])), 80) for n in gt]}", ctx.loc(f, loops[0]))
     # E
@@ -326,8 +339,10 @@ def _t2(ctx: Context) -> None:
     consume = [m for m in cfg.nodes if m.kind == "stmt" and (isinstance(m.ast, ast.Delete) or (isinstance(m.ast, ast.Assign) and any(strip_sites(T.of(cfg, m, tg)) == buf for tg in m.ast.targets if isinstance(tg, ast.Attribute))))]
     okr = True
     for e in cfg.out_edges(n, (lab,)):
-        reach = cfg.reachable_from(e[1])
-        okr &= cfg.nodes[e[1]].kind == "return" and not any(c.id in reach for c in consume)
+        # the incomplete outcome ends this call without another round and without consuming: `return`, or `break` when
+        # nothing but the end of the function follows the loop
+        reach = cfg.reachable_from(e[1]) | {e[1]}
+        okr &= loops[0].id not in reach and cfg.exit.id in reach and not any(c.id in reach for c in consume)
     p = None
     for c in consume:
         p = p or cfg.find_path(loops[0].id, n.id, avoid_nodes=[], edge_ok=None) and cfg.find_path(loops[0].id, n.id, avoid_nodes=[x.id for x in consume if x is not c]) and None
@@ -335,7 +350,9 @@ def _t2(ctx: Context) -> None:
     ck.check("C05.T2", okr and not pre, "an incomplete frame returns without consuming anything", f"{ctx.fkey(f)}:incomplete-consumes",
              "data_received consumes buffer bytes before/when it finds the frame incomplete (the rest of the frame will be misparsed on the next read)", ctx.loc(f, n))
     # ciphertext taken buf[2:E], deletion buf[:E] with the same E
-    taken = [m for m in cfg.nodes if m.kind == "stmt" and isinstance(m.ast, ast.Assign) and strip_sites(T.of(cfg, m, m.ast.value)) == ("sub", buf, ("slice", ("const", FRAME_LENGTH_BYTES), E, None))]
+    # (the statement that slices the buffer itself - copies of the taken value into temporaries / helper parameters do not count)
+    taken = [m for m in cfg.nodes if m.kind == "stmt" and isinstance(m.ast, ast.Assign) and isinstance(m.ast.value, ast.Subscript)
+             and strip_sites(T.of(cfg, m, m.ast.value)) == ("sub", buf, ("slice", ("const", FRAME_LENGTH_BYTES), E, None))]
     dels = []
     for m in cfg.nodes:
         if m.kind == "stmt" and isinstance(m.ast, ast.Delete):
